@@ -119,14 +119,22 @@ where
         }
         let arg = args[0];
         if let (Some(b), Some(e)) = self.buffered_encoder.is_skeptically_accepted(arg) {
-            return (
-                b,
-                Some(
-                    e.iter()
-                        .map(|id| self.af.argument_set().get_argument_by_id(*id))
-                        .collect(),
-                ),
-            );
+            // the cached extension was computed for another query: it is a witness only if it omits the argument
+            let omits_arg = self
+                .af
+                .argument_set()
+                .get_argument(arg)
+                .map_or(false, |a| !e.contains(&a.id()));
+            if omits_arg {
+                return (
+                    b,
+                    Some(
+                        e.iter()
+                            .map(|id| self.af.argument_set().get_argument_by_id(*id))
+                            .collect(),
+                    ),
+                );
+            }
         }
         self.buffered_encoder.update_encoding(&mut self.af);
         let encoder_ref = self.buffered_encoder.encoder();
